@@ -254,13 +254,39 @@ def search(ctx):
                 found.append({"clause": why, "input": {"class": stack, "cfg": repr(c), "op": repr(op), "script": repr(sc), "choices": repr(ch), "reply": repr(rep)},
                               "observed": repr(got), "expected": repr(exp[0]), "size": len(sc) + len(ch) + (0 if stack == "Client" else 1),
                               "case": repr((stack, c, op, sc, ch, rep))})
-    ctx.search_summary = {"failing_plans_compared_with_the_miss_result": n, "plans_that_do_not_fail_the_call": skipped, "stacks": STACKS}
+    # HashClient's own failover histories (scripted inner clients): under ignore_exc no read may raise, and a read whose server
+    # call failed (or was skipped inside the retry window) returns the miss value the property names
+    nhist = 0
+    for x in hash_cases(ctx):
+        cfg, servers, t0, times, outs, ops = x
+        r = hs.run_impl(*x)
+        nhist += 1
+        hits = {repr(hs.canon_value(o)) for o in outs if not (isinstance(o, tuple) and len(o) == 1 and isinstance(o[0], int))}
+        hits.add(repr(hs.canon_value(None)))      # the scripted inner client answers None once its outcomes are used up
+        for i, (op, res) in enumerate(zip(ops, r[0])):
+            if op[0] not in (2, 5):
+                continue
+            why = None
+            if res[0] == "e":
+                why = "HashClient.%s raised %s under ignore_exc (call %d of the history)" % (op[1] if op[0] == 5 else "get_many", res[1], i)
+            elif op[0] == 5 and res[1] != hs.canon_value(op[4]) and repr(res[1]) not in hits:
+                why = "HashClient.%s returned %r, neither a hit nor the miss value %r (call %d of the history)" % (op[1], res[1], op[4], i)
+            if why:
+                found.append({"clause": why, "input": {"class": "HashClient", "cfg": repr(cfg), "servers": repr(servers), "clock": repr(times),
+                                                        "inner_outcomes": repr(outs), "ops": repr(ops)},
+                              "observed": repr(r[0]), "size": 100 + len(ops), "hash_case": repr(x)})
+                break
+    ctx.search_summary = {"hash_failover_histories": nhist, "failing_plans_compared_with_the_miss_result": n, "plans_that_do_not_fail_the_call": skipped, "stacks": STACKS}
     found.sort(key=lambda v: v["size"])
     return found[:1]
 
 
 def replay(ctx, obj):
     v = obj.get("violation")
+    if v and v.get("hash_case"):
+        r = hs.run_impl(*eval(v["hash_case"]))
+        print("HashClient history ->", r[0])
+        return any(x[0] == "e" for x in r[0])
     if not v or not v.get("case"):
         return None
     stack, c, op, sc, ch, rep = eval(v["case"])
